@@ -64,8 +64,10 @@ def st_graph(draw, min_nodes: int = 4, max_nodes: int = 12, varied_speed: bool =
         if block_times:
             # a regular city: every link takes a whole multiple of 15 s at a whole number of m/s, so journeys between
             # junctions end exactly when a time step ends (the boundary case of every arrival rule)
+            # (lengths stay physical: at least the straight line between the junctions)
             ms = draw(st.sampled_from([5, 10, 10, 15, 20]))
-            e = [100 + a, 100 + b, ms * draw(st.sampled_from([15, 30, 30, 45, 60, 90])) + 0.01, ms * 3.6]
+            blocks = math.ceil(base / (ms * 15.0)) + draw(st.sampled_from([0, 0, 1]))
+            e = [100 + a, 100 + b, ms * 15 * blocks + 0.01, ms * 3.6]
         if arbitrary_lengths and draw(st.sampled_from([False, False, True])):
             # an explicit travel_time attribute (as in the shipped Denver file), not necessarily length / speed
             e.append(round(base / 1000.0 / (speed or 40) * 3600.0 * draw(st.sampled_from([0.5, 1.0, 2.0])), 3))
